@@ -34,6 +34,7 @@ package composite
 //@   invariant loop 2 [C09]: validRMInf(pc.customize)
 //@   invariant loop 2 [C09]: validPC(pc)
 //@   invariant loop 1 [C09]: noNilChildren(observedChildren)
+//@   invariant loop 1 [C09]: len(parentRevisions) >= 1
 //@   invariant loop 2 [C09]: noNilChildren(observedChildren)
 //@   at applyPatch(d, pt, fp) [C17,C09]: deepfresh(d)
 //@   at parentController.manageRevisions(p, par, obs, des) [C09]: called(parentController.syncRollingUpdate) && sruErr == nil && par == parent
